@@ -3,7 +3,14 @@
     Result: (corr, prop, class, attributed-flag), see RLCheck.v. *)
 From EG.lib Require Import Base BrokerMap.
 From EG.model Require Import RL Session Broker.
+Require EG.model.Topic.
 Open Scope Z_scope.
+
+(** filter/topic matching: the declarative MQTT matcher of C14's model (EG.model.Topic, proved equal to the
+    inductive relation there) - independent of the code under test.  The harness' table computed with the real
+    TopicManager is only cross-checked against it. *)
+Definition mqtt_matches (topic f : string) : bool :=
+  Topic.matchesb (Topic.split_slash f) (Topic.split_slash topic).
 
 Definition result := (bool * bool * N * N)%type.
 Definition bN (b : bool) (n : N) : N := if b then n else 0%N.
@@ -22,21 +29,30 @@ Definition topics_eqb (a b : topics) : bool := amap_eqb String.eqb Z.eqb a b.
 
 (** * fan: fan-out of HTTP-published messages *)
 
-Record fan_client := { fcl_cid : string; fcl_connected : bool; fcl_subs : list (string * Z) }.
-Record fan_pub := { fp_qos : Z; fp_match : list (string * bool); fp_recv : list string }.
+(** the harness' own record of one client's history before the publishes: SUBSCRIBEs, then UNSUBSCRIBEs,
+    then possibly a disconnect ([fcl_left]) or an admin delete ([fcl_connected] = false, subscriptions stay) *)
+Record fan_client := { fcl_cid : string; fcl_connected : bool; fcl_subs : list (string * Z);
+                       fcl_unsubs : list string; fcl_left : bool }.
+Record fan_pub := { fp_topic : string; fp_qos : Z; fp_match : list (string * bool); fp_recv : list string }.
 Record fan_case := { fc_clients : list fan_client; fc_pubs : list fan_pub; fc_bad : bool }.
 
+(** live subscriptions of one client at publish time (spec-level replay of its history) *)
+Definition live_subs (cl : fan_client) : list (string * Z) :=
+  if fcl_left cl then []
+  else filter (fun '(f, _) => negb (smem f (fcl_unsubs cl))) (fcl_subs cl).
+
 Definition fan_subs (c : fan_case) : list sub :=
-  flat_map (fun cl => map (fun '(f, q) => (fcl_cid cl, f, q)) (fcl_subs cl)) (fc_clients c).
+  flat_map (fun cl => map (fun '(f, q) => (fcl_cid cl, f, q)) (live_subs cl)) (fc_clients c).
 
 Definition fan_connected (c : fan_case) (cid : string) : bool :=
-  existsb (fun cl => String.eqb (fcl_cid cl) cid && fcl_connected cl) (fc_clients c).
+  existsb (fun cl => String.eqb (fcl_cid cl) cid && fcl_connected cl && negb (fcl_left cl)) (fc_clients c).
 
 Definition row_matches (row : list (string * bool)) (f : string) : bool :=
   match sget f row with Some b => b | None => false end.
 
+(** cross-check only: the real TopicManager holding a single subscription agrees with the matcher *)
 Definition oracle_complete (c : fan_case) (p : fan_pub) : bool :=
-  forallb (fun s => match sget (snd (fst s)) (fp_match p) with Some _ => true | None => false end) (fan_subs c).
+  forallb (fun '(f, b) => Bool.eqb b (mqtt_matches (fp_topic p) f)) (fp_match p).
 
 Fixpoint insert_all {A} (x : A) (l : list A) : list (list A) :=
   match l with
@@ -67,11 +83,11 @@ Definition choice_of (tbl : list (string * nat)) (c : string) : nat :=
 Definition fan_received (q : quirks) (c : fan_case) (p : fan_pub) (tbl : list (string * nat)) (order : list string)
   : list string :=
   if 1 <? fp_qos p then []
-  else fanout (row_matches (fp_match p)) q (fan_subs c) (fan_connected c) (fp_qos p) (choice_of tbl) order.
+  else fanout (mqtt_matches (fp_topic p)) q (fan_subs c) (fan_connected c) (fp_qos p) (choice_of tbl) order.
 
 (** does SOME visit order / choice make the model produce exactly the observed receivers? *)
 Definition fan_explains (q : quirks) (c : fan_case) (p : fan_pub) : bool :=
-  let m := row_matches (fp_match p) in
+  let m := mqtt_matches (fp_topic p) in
   let cs := subscribers m (fan_subs c) in
   existsb (fun tbl => existsb (fun order => sseteq (fan_received q c p tbl order) (fp_recv p)) (perms cs))
           (choice_tables q m (fan_subs c) cs).
@@ -81,8 +97,8 @@ Definition fan_explains (q : quirks) (c : fan_case) (p : fan_pub) : bool :=
 Definition fan_prop_pub (c : fan_case) (p : fan_pub) : bool :=
   (1 <? fp_qos p) ||
   forallb (fun cl =>
-             if fcl_connected cl &&
-                existsb (fun '(f, qs) => row_matches (fp_match p) f && (fp_qos p <=? qs)) (fcl_subs cl)
+             if fcl_connected cl && negb (fcl_left cl) &&
+                existsb (fun '(f, qs) => mqtt_matches (fp_topic p) f && (fp_qos p <=? qs)) (live_subs cl)
              then smem (fcl_cid cl) (fp_recv p) else true)
           (fc_clients c).
 
@@ -114,11 +130,11 @@ Definition fan_attrib (pinned : quirks) (c : fan_case) : N :=
   end.
 
 Definition fan_class (c : fan_case) : N :=
-  let any_match := existsb (fun p => negb (Nat.eqb (List.length (subscribers (row_matches (fp_match p)) (fan_subs c))) 0)) (fc_pubs c) in
+  let any_match := existsb (fun p => negb (Nat.eqb (List.length (subscribers (mqtt_matches (fp_topic p)) (fan_subs c))) 0)) (fc_pubs c) in
   if negb any_match then 0%N else
-  let mixed := existsb (fun p => existsb (fun cl => existsb (fun '(f, qs) => row_matches (fp_match p) f && (qs <? fp_qos p)) (fcl_subs cl)) (fc_clients c)) (fc_pubs c) in
-  let overlap := existsb (fun p => existsb (fun cl => Nat.ltb 1 (List.length (msubs (row_matches (fp_match p)) (fan_subs c) (fcl_cid cl)))) (fc_clients c)) (fc_pubs c) in
-  let gone := existsb (fun cl => negb (fcl_connected cl)) (fc_clients c) in
+  let mixed := existsb (fun p => existsb (fun cl => existsb (fun '(f, qs) => mqtt_matches (fp_topic p) f && (qs <? fp_qos p)) (live_subs cl)) (fc_clients c)) (fc_pubs c) in
+  let overlap := existsb (fun p => existsb (fun cl => Nat.ltb 1 (List.length (msubs (mqtt_matches (fp_topic p)) (fan_subs c) (fcl_cid cl)))) (fc_clients c)) (fc_pubs c) in
+  let gone := existsb (fun cl => negb (fcl_connected cl) || fcl_left cl || negb (Nat.eqb (List.length (fcl_unsubs cl)) 0)) (fc_clients c) in
   let multi := existsb (fun p => Nat.ltb 1 (List.length (fp_recv p))) (fc_pubs c) in
   (1 + bN mixed 1 + bN overlap 2 + bN gone 4 + bN multi 8)%N.
 
@@ -131,7 +147,7 @@ Definition check_fan (pinned : quirks) (c : fan_case) : result :=
 (** for replay files: per publish (explained by pinned?, explained by ideal?, property holds?) *)
 Definition explain_fan (pinned : quirks) (c : fan_case) :=
   map (fun p => (fan_explains pinned c p, fan_explains ideal c p, fan_prop_pub c p,
-                 subscribers (row_matches (fp_match p)) (fan_subs c))) (fc_pubs c).
+                 subscribers (mqtt_matches (fp_topic p)) (fan_subs c))) (fc_pubs c).
 
 (** * sess: QoS 1 retransmission *)
 
@@ -328,7 +344,7 @@ Inductive life_op :=
 | LUnsub (k : Z) (fs : list string)
 | LDrop (k : Z) (poke : bool) (eof : bool)      (* close the socket / DISCONNECT, or (poke) send PINGREQ and see whether the broker cuts the connection *)
 | LAdmin (cid : string)
-| LPub (row : list (string * bool)) (recv : list Z).
+| LPub (topic : string) (row : list (string * bool)) (recv : list Z).
 
 Record life_case := { lc_steps : list (life_op * snap); lc_bad : bool }.
 
@@ -339,7 +355,7 @@ Definition life_events (o : life_op) : list ev :=
   | LUnsub k fs => [Unsubscribe k fs]
   | LDrop k _ _ => [Teardown k]
   | LAdmin cid => [AdminDelete cid]
-  | LPub _ _ => []
+  | LPub _ _ _ => []
   end.
 
 Definition pair_bt_eqb (a b : bool * topics) : bool := Bool.eqb (fst a) (fst b) && topics_eqb (snd a) (snd b).
@@ -377,7 +393,9 @@ Definition conn_live (st : state) (k : Z) : bool :=
 
 Definition op_agrees (st_before st_after : state) (o : life_op) : bool :=
   match o with
-  | LPub row recv => zseteq (receivers (row_matches row) st_after) recv
+  | LPub topic row recv =>
+      zseteq (receivers (mqtt_matches topic) st_after) recv &&
+      forallb (fun '(f, b) => Bool.eqb b (mqtt_matches topic f)) row
   | LDrop k poke eof =>
       (* a PINGREQ on a connection the broker has already closed ends its read loop (EOF at the client);
          the harness only pokes closed ones *)
@@ -442,7 +460,7 @@ Definition spec_step (sp : list (string * spec_cid)) (o : life_op) : list (strin
       end
   | LAdmin cid =>
       sset cid {| sp_cur := None; sp_sess := Some false; sp_subs := None |} sp
-  | LPub _ _ => sp
+  | LPub _ _ _ => sp
   end.
 
 (** what must hold in a snapshot for one client id *)
@@ -479,10 +497,10 @@ Definition spec_op_holds (sp_before sp_after : list (string * spec_cid)) (sn : s
       | None => true
       end
   | LDrop _ poke eof => if poke then eof else true
-  | LPub row recv =>
+  | LPub topic row recv =>
       forallb (fun '(cid, x) =>
                  match sp_cur x, sp_subs x with
-                 | Some k, Some e => Bool.eqb (zmem k recv) (existsb (fun '(f, _) => row_matches row f) e)
+                 | Some k, Some e => Bool.eqb (zmem k recv) (existsb (fun '(f, _) => mqtt_matches topic f) e)
                  | _, _ => true
                  end) sp_after
   | _ => true
@@ -511,7 +529,7 @@ Fixpoint model_steps (q : quirks) (st : state) (steps : list (life_op * snap)) :
       if poke_of_live st o then model_steps q st t else
       let st' := run q st (life_events o) in
       let o' := match o with
-                | LPub row _ => LPub row (receivers (row_matches row) st')
+                | LPub topic row _ => LPub topic row (receivers (mqtt_matches topic) st')
                 | LDrop k poke _ => LDrop k poke poke
                 | _ => o
                 end in
@@ -545,7 +563,7 @@ Definition life_class (c : life_case) : N :=
                end
            end) [] ops in
       let admin := existsb (fun o => match o with LAdmin _ => true | _ => false end) ops in
-      let pub := existsb (fun o => match o with LPub _ (_ :: _) => true | _ => false end) ops in
+      let pub := existsb (fun o => match o with LPub _ _ (_ :: _) => true | _ => false end) ops in
       let restore := existsb (fun o => match o with LConnect _ _ false => true | _ => false end) ops in
       (1 + bN takeover 1 + bN stale_drop 2 + bN admin 4 + bN pub 8 + bN restore 16)%N
   end.
